@@ -600,6 +600,15 @@ class ExperimentPackage(StorageStructurePathResolver):
                     sourceFolder, method = sourceFolder.rsplit(':', 1)
                     target_folder_path = os.path.join(targetPath, targetFolder)
 
+                    # VV: an entry which is nested under a folder that the manifest has just linked would end up where
+                    #     the link points to
+                    instance_root = os.path.realpath(targetPath)
+                    parent_path = os.path.realpath(os.path.dirname(os.path.normpath(target_folder_path)))
+                    if parent_path != instance_root and not parent_path.startswith(os.path.join(instance_root, '')):
+                        raise experiment.model.errors.PackageCreateError(
+                            ValueError("Manifest entry %s (%s) would be created outside the instance directory, in %s" % (
+                                targetFolder, sourceFolder, parent_path)), targetPath, path)
+
                     if method == 'copy':
                         logger.info("Copying %s to %s" % (sourceFolder, targetFolder))
                         shutil.copytree(sourceFolder, target_folder_path)
